@@ -60,8 +60,8 @@ Blame ==
   @@ "oe.res.call" :> {"C02"}
   @@ "oe.val.call" :> {"C02", "C01"}
   @@ "oe.ready.call" :> {"C02"}
-  @@ "oe.res.ping" :> {"C02"}
-  @@ "oe.ready.ping" :> {"C02"}
+  @@ "oe.res.ping" :> {"C02", "C01"}
+  @@ "oe.ready.ping" :> {"C02", "C01"}
   @@ "oe.res.stop" :> {"C04"}
   @@ "oe.res.try_stop" :> {"C04", "C05"}
   @@ "oe.res.restart" :> {"C07"}
